@@ -1090,7 +1090,8 @@ def paths(prog, path, max_paths=128, with_calls=False):
     out = []
     budget = [max_paths * 4]
 
-    def run(bid, env, conds, visited, calls=()):
+    def run(bid, env, conds, visited, calls=(), refs=None):
+        refs = dict(refs or {})
         while True:
             budget[0] -= 0
             if bid in visited:
@@ -1104,6 +1105,11 @@ def paths(prog, path, max_paths=128, with_calls=False):
                 pe.env = env
                 val = pe._rvalue(rv, bid, 0)
                 env = dict(env)
+                if not d["p"] and rv.get("k") == "refmut" and isinstance(rv.get("place"), dict) and not rv["place"].get("p"):
+                    refs[d["l"]] = rv["place"]["l"]     # `_t = &mut _x`: a callee that receives _t changes _x
+                elif not d["p"] and rv.get("k") in ("use", "move", "copy") and rv.get("ops") and op_place(rv["ops"][0]) and \
+                        not op_place(rv["ops"][0])["p"] and op_place(rv["ops"][0])["l"] in refs:
+                    refs[d["l"]] = refs[op_place(rv["ops"][0])["l"]]
                 if not d["p"]:
                     env[d["l"]] = val
                 else:
@@ -1131,11 +1137,14 @@ def paths(prog, path, max_paths=128, with_calls=False):
                 env = dict(env)
                 if not t["dst"]["p"]:
                     env[t["dst"]["l"]] = val
-                # &mut arguments: the callee may change them; forget what we knew (kept as mutated_by)
+                # &mut arguments: the callee changes the referent; along this path its value becomes
+                # ('mutated_by', callee, (old value, other arguments..), block) - the same node Expr uses
                 for a in t["args"]:
                     apl = op_place(a)
-                    if apl is not None and apl["l"] in env and "&mut" in (b["locals"][apl["l"]]["ty"] or ""):
-                        pass
+                    if apl is not None and not apl["p"] and apl["l"] in refs:
+                        tgt = refs[apl["l"]]
+                        argv = tuple(pe.operand(x) for x in t["args"])
+                        env[tgt] = ("mutated_by", Program.callee_name(t), argv, bid)
                 bid = t["targets"][0]
             elif k == "switch":
                 cond = pe.operand(t["on"])
@@ -1187,9 +1196,9 @@ def paths(prog, path, max_paths=128, with_calls=False):
                     if len(out) >= max_paths:
                         raise OverflowError("too many paths")
                     if feasible(v):
-                        run(tg, env, conds + [(cond, v)], visited, calls)
+                        run(tg, env, conds + [(cond, v)], visited, calls, refs)
                 if feasible(("not", tuple(vals))):
-                    run(tgts[-1], env, conds + [(cond, ("not", tuple(vals)))], visited, calls)
+                    run(tgts[-1], env, conds + [(cond, ("not", tuple(vals)))], visited, calls, refs)
                 return
             elif k == "return":
                 pe.env = env
